@@ -5,6 +5,8 @@ From InvokeVerif Require Export Model.StdinModel Spec.C13Spec.
 Record case := mk {
   c_in : stdin_in;
   c_done : bool;          (* run() came back in time *)
+  c_close_last : bool;    (* the stdin worker wrote nothing to the child's stdin after closing it *)
+  c_silent : bool;        (* nothing was echoed to the stream object the run was NOT told to use *)
   c_obs : stdin_obs
 }.
 
@@ -13,13 +15,13 @@ Definition sobs_eqb (a b : stdin_obs) : bool :=
   text_eqb (sb_echo a) (sb_echo b) && Bool.eqb (sb_terminated a) (sb_terminated b) &&
   opt_bytes_eqb (sb_responses a) (sb_responses b).
 
-Definition corr (c : case) : bool := c_done c && sobs_eqb (stdin_model (c_in c)) (c_obs c).
+Definition corr (c : case) : bool := c_done c && c_close_last c && c_silent c && sobs_eqb (stdin_model (c_in c)) (c_obs c).
 
 Definition spec_in (i : stdin_in) (o : stdin_obs) : bool :=
   spec_ok (si_enc i) (si_stream i) (si_echo i) (si_pty i) (si_script i) (si_responses i)
           (sb_received o) (sb_closes o) (sb_echo o) (sb_terminated o) (sb_responses o).
 
-Definition spec (c : case) : bool := c_done c && spec_in (c_in c) (c_obs c).
+Definition spec (c : case) : bool := c_done c && c_close_last c && c_silent c && spec_in (c_in c) (c_obs c).
 
 (** Encoder validation against CPython's [str.encode]. *)
 Record ecase := mke { e_enc : enc; e_text : text; e_bytes : option bytes }.
